@@ -49,6 +49,15 @@ pub struct Violation {
     pub replay: Value,
 }
 
+/// "strict": overflow checks and debug assertions compiled into bourse; "plain": the ordinary release profile.
+pub fn build_profile() -> &'static str {
+    if cfg!(debug_assertions) {
+        "strict"
+    } else {
+        "plain"
+    }
+}
+
 pub struct Ctx {
     pub prop: String,
     pub tier: Tier,
@@ -104,11 +113,13 @@ impl Ctx {
             } else {
                 unlisted += 1;
                 std::fs::create_dir_all(&replay_dir).ok();
-                let path = format!("{}/{}-{}-{}-{}.json", replay_dir, self.prop, self.tier.name(), self.seed, unlisted);
+                let tag = if build_profile() == "plain" { "plain-" } else { "" };
+                let path = format!("{}/{}-{}-{}-{}{}.json", replay_dir, self.prop, self.tier.name(), self.seed, tag, unlisted);
                 let mut doc = v.replay.clone();
                 if let Some(o) = doc.as_object_mut() {
                     o.insert("property".into(), json!(self.prop));
                     o.insert("signature".into(), json!(v.signature));
+                    o.insert("build_profile".into(), json!(build_profile()));
                     o.insert("summary".into(), json!(v.summary));
                 }
                 std::fs::write(&path, serde_json::to_string_pretty(&doc).unwrap()).ok();
@@ -118,6 +129,7 @@ impl Ctx {
         }
         if let Some(o) = coverage.as_object_mut() {
             o.insert("hooks".into(), json!(self.hooks));
+            o.insert("build_profile".into(), json!(build_profile()));
             o.insert("threads".into(), json!(self.threads));
             o.insert("violation_signatures".into(), json!(seen_sig));
             if let Some(r) = &inconclusive {
@@ -150,10 +162,11 @@ impl Ctx {
             return 2;
         }
         println!(
-            "OK property={} tier={} seed={} wall_s={:.1} evaluations={} distinct_nontrivial={}",
+            "OK property={} tier={} seed={} profile={} wall_s={:.1} evaluations={} distinct_nontrivial={}",
             self.prop,
             self.tier.name(),
             self.seed,
+            build_profile(),
             self.elapsed(),
             ev["coverage"]["evaluations"],
             ev["coverage"]["distinct_nontrivial"]
